@@ -91,6 +91,15 @@ func (p *Program) shapeExpr(e *Expr, args []string, depth int) string {
 		if e.Name == "nil" {
 			return ""
 		}
+		if e.Val != nil {
+			// a printable byte constant spliced into a key (append(key, '/')) is that character
+			if b, ok := e.Val.Type().Underlying().(*types.Basic); ok && (b.Kind() == types.Uint8 || b.Kind() == types.Int32 || b.Kind() == types.UntypedRune) {
+				var n int
+				if _, err := fmt.Sscanf(e.Name, "%d", &n); err == nil && n >= 32 && n <= 126 {
+					return string(rune(n))
+				}
+			}
+		}
 		return "⟨const:" + e.Name + "⟩"
 	case "param":
 		if args != nil {
